@@ -81,7 +81,9 @@ func main() {
 	})
 	try("MulVec slack", func() {
 		var r mat.VecDense
-		r.MulVec(src.T(), mat.NewVecDense(2, []float64{1, 1}))
+		var ones mat.VecDense
+		ones.SetRawVector(blas64.Vector{N: 2, Inc: 1, Data: []float64{1, 1, 1, 1}})
+		r.MulVec(src.T(), &ones)
 		fmt.Println("MulVec(srcT, [1 1]) =", r.AtVec(0), "(want 3)")
 	})
 
